@@ -23,7 +23,7 @@ VARIABLES status, config, hist, ctx, output, out, lastStep, errv, dirty
 vars == <<mi, status, config, hist, ctx, output, out, lastStep, errv, dirty>>
 
 Pack == [config |-> config, hist |-> hist, status |-> status, ctx |-> ctx, queue |-> <<>>,
-         out |-> <<>>, err |-> NoErr, rd |-> 0, output |-> output]
+         out |-> <<>>, err |-> NoErr, rd |-> 0, output |-> output, gv |-> <<>>]
 
 HistOwnersOf(m) == {s \in Machines[m].states :
                       \E i \in 1..Len(Machines[m].children[s]) :
@@ -136,7 +136,9 @@ Props == [C01 |-> On("C01", C01(PreS, lastStep', PostS, out')),
           C03 |-> On("C03", C03(PreS, lastStep', PostS, out')),
           C10 |-> On("C10", C10(PreS, lastStep', PostS, out', Engine)),
           C11 |-> On("C11", C11(PreS, lastStep', PostS, out', Engine)),
-          C05 |-> On("C05", C05Spec(lastStep'))]
+          C05 |-> On("C05", C05Spec(lastStep')),
+          C06 |-> On("C06", C06(PreS, lastStep', PostS, out')),
+          C20 |-> On("C20", C20(PreS, lastStep', PostS, out'))]
 
 Emit == PrintT(ToJson([mi |-> mi, from |-> PreS, step |-> lastStep', to |-> PostS, dirty |-> dirty',
                        out |-> out', prop |-> Props]))
